@@ -726,6 +726,9 @@ func init() {
 	props["C03"] = func(c *ctx) {
 		stalledBurst(c, 1040)
 		flowCase(c, "burst", 1040)
+		for _, rt := range []string{"cds", "eds"} {
+			parkedAck(c, rt)
+		}
 		// a stream failure racing ONE lookup: the sender takes either the queued request first (it goes to the dead stream,
 		// so the re-subscription must carry the change) or the new stream first; both orders occur over the repetitions
 		for i := 0; i < 10*c.budget && !c.expired(); i++ {
@@ -742,6 +745,7 @@ func init() {
 			stalledReconnect(c, 1+i%2)
 		}
 		doubleFailure(c)
+		parkedWatchReconnect(c)
 		outage(c, 1, 0)
 		outage(c, 3, 0)
 		outage(c, 1, 1040)
